@@ -35,6 +35,57 @@ type field struct {
 	mode  byte // n o i x
 	alias string
 	t     *ty
+	// name != "": the Go field has this name and NO name part in its json tag (untagged, or `json:",omitempty"`), so
+	// the repository derives the alias as snake_case(name) (strcase). alias is then what the harness expects that to
+	// be, computed by its own snakeCase – the model is told the alias, a wrong alias on the Go side is a difference.
+	name string
+}
+
+// snakeCase: an independent implementation of the default alias rule for Go identifiers (ASCII letters, digits and
+// '_'): a '_' is inserted where the character class changes between lower-case letter, upper-case letter and digit,
+// an acronym stays one word ("HTTPServer" → "http_server", "UserID2" → "user_id_2", "X2Y" → "x_2_y").
+func snakeCase(s string) string {
+	class := func(c byte) int {
+		switch {
+		case c >= 'A' && c <= 'Z':
+			return 1
+		case c >= 'a' && c <= 'z':
+			return 2
+		case c >= '0' && c <= '9':
+			return 3
+		}
+		return 0
+	}
+	lower := func(c byte) byte {
+		if class(c) == 1 {
+			return c + 'a' - 'A'
+		}
+		return c
+	}
+	var out []byte
+	for i := 0; i < len(s); i++ {
+		c := s[i]
+		if i+1 < len(s) {
+			cc, nc := class(c), class(s[i+1])
+			changed := (cc == 1 && (nc == 2 || nc == 3)) || (cc == 2 && (nc == 1 || nc == 3)) || (cc == 3 && (nc == 1 || nc == 2))
+			if changed {
+				// "HTTPServer": the upper-case letter that starts the next word gets the separator before it
+				if cc == 1 && nc == 2 && i > 0 && class(s[i-1]) == 1 {
+					out = append(out, '_')
+				}
+				out = append(out, lower(c))
+				if cc == 2 || cc == 3 || nc == 3 {
+					out = append(out, '_')
+				}
+				continue
+			}
+		}
+		if c == ' ' || c == '-' || c == '.' {
+			c = '_'
+		}
+		out = append(out, lower(c))
+	}
+	return string(out)
 }
 
 type ty struct {
@@ -92,6 +143,14 @@ func structOf(fs []field) *ty {
 			tag = "-"
 		}
 		sf[i] = reflect.StructField{Name: "F" + strconv.Itoa(i), Type: f.t.rt, Tag: reflect.StructTag(`json:"` + tag + `"`)}
+		if f.name != "" {
+			// default alias: no name part in the tag (mode n: no tag at all)
+			sf[i].Name = f.name
+			sf[i].Tag = ""
+			if f.mode == 'o' {
+				sf[i].Tag = `json:",omitempty"`
+			}
+		}
 	}
 	return &ty{k: "struct", fs: fs, rt: reflect.StructOf(sf)}
 }
@@ -165,8 +224,10 @@ func tyOf(rt reflect.Type) (*ty, error) {
 				fs = append(fs, field{mode: 'x', t: e})
 			case opt == "inline":
 				fs = append(fs, field{mode: 'i', t: e})
+			case name == "" && opt == "omitempty":
+				fs = append(fs, field{mode: 'o', alias: snakeCase(f.Name), t: e, name: f.Name})
 			case name == "":
-				return nil, fmt.Errorf("field %s has no explicit alias", f.Name)
+				fs = append(fs, field{mode: 'n', alias: snakeCase(f.Name), t: e, name: f.Name})
 			case opt == "omitempty":
 				fs = append(fs, field{mode: 'o', alias: name, t: e})
 			default:
@@ -205,7 +266,12 @@ func (t *ty) wire(out *[]string) {
 	case "struct":
 		*out = append(*out, "struct", strconv.Itoa(len(t.fs)))
 		for _, f := range t.fs {
-			*out = append(*out, string(f.mode), hx([]byte(f.alias)))
+			if f.name != "" {
+				// N / O: named / omitempty with the default alias; the Go field name follows the alias
+				*out = append(*out, strings.ToUpper(string(f.mode)), hx([]byte(f.alias)), hx([]byte(f.name)))
+			} else {
+				*out = append(*out, string(f.mode), hx([]byte(f.alias)))
+			}
 			f.t.wire(out)
 		}
 	default:
@@ -360,7 +426,7 @@ func parseTy(p *toks) (*ty, error) {
 			if err != nil {
 				return nil, err
 			}
-			if len(m) != 1 || !strings.Contains("noix", m) {
+			if len(m) != 1 || !strings.Contains("noixNO", m) {
 				return nil, fmt.Errorf("bad field mode %q", m)
 			}
 			a, err := p.next()
@@ -371,11 +437,27 @@ func parseTy(p *toks) (*ty, error) {
 			if err != nil {
 				return nil, err
 			}
+			name := ""
+			if m == "N" || m == "O" {
+				ns, err := p.next()
+				if err != nil {
+					return nil, err
+				}
+				nb, err := unhx(ns)
+				if err != nil {
+					return nil, err
+				}
+				name = string(nb)
+				if snakeCase(name) != string(ab) {
+					return nil, fmt.Errorf("default alias of %q is %q, not %q", name, snakeCase(name), ab)
+				}
+				m = strings.ToLower(m)
+			}
 			ft, err := parseTy(p)
 			if err != nil {
 				return nil, err
 			}
-			fs[i] = field{mode: m[0], alias: string(ab), t: ft}
+			fs[i] = field{mode: m[0], alias: string(ab), t: ft, name: name}
 		}
 		return structOf(fs), nil
 	}
